@@ -111,3 +111,10 @@ claim(
     "Trusted: python ast, bfsa. CPython attribute assignment / tuple load atomicity and threading.Lock are assumed.",
     "DESIGN.md section 4, C20",
 )
+claim(
+    "C09", "other",
+    "byte-layout and provenance rules for the ECIES block; constant audit of the published keys and the 27-byte header with the checker's own DER reader and P-256 arithmetic; must-pass-through rule along the resolved call chain to the on-curve guard; who-may-call rule for validation switches",
+    "Decides: the block is selector || 04 || raw public point of a per-call ephemeral key || AES-CBC(session key) under SHA-256(ECDH secret)[:16] with default IV, and the decryptor parses exactly that with the roles swapped and rejects a wrong marker; the four DEFAULT_PUBLIC_KEYS are well-formed P-256 SubjectPublicKeyInfo values whose points lie on the curve (checker's own arithmetic), equal to the pinned published values, keyed by KEYSEL_* = 0..3, and chosen by the block's selector when no recipient is given; raw<->DER conversion uses the exact 27-byte P-256 prefix in both directions; from the plug-in's loader every hop (from_der -> from_string -> from_public_point -> Public_key.__init__) hands point validation on with defaults True, the range and on-curve guards dominate acceptance, rejection is converted to MalformedPointError, contains_point is the curve equation, and the only call that binds validation to False is SigningKey.from_secret_exponent. That OpenSSL recovers the same key is not decided.",
+    "Trusted: python ast, bfsa, bfsa.constaudit (DER reader, EC arithmetic, P-256 parameters written from FIPS 186-4), spec/published_keys.json (pinned values).",
+    "DESIGN.md section 4, C09",
+)
